@@ -330,3 +330,114 @@ theorem tagAccess_wrote_inv (tag : Tag) (B index n off : Nat) (w : List Val) (t'
       exact ⟨x.beg, hx'.2.1, by omega, by omega, by omega, h.symm⟩
 
 end Cpppo.Logix
+
+namespace Cpppo.Logix
+
+/-! ### the attribute services keep the device well-formed -/
+
+theorem size_pos_of_fixed (t : CipType) : 0 < t.size := by cases t <;> decide
+
+/-- what Set Attribute Single stores: one canonical value per element, as many as the attribute holds -/
+theorem setAttr_values (t : Tag) (hwf : t.WF) (data : Bytes) (vs : List Val)
+    (hf : t.ty.fixed = true) (hlen : data.length = t.ty.size * t.len)
+    (hvs : ((match t.ty with | .bool => decodeVals .usint data | ty => decodeVals ty data).bind
+              (·.mapM (Val.conv t.ty))) = some vs) :
+    (∀ v ∈ vs, Val.conv t.ty v = some v) ∧ vs.length = t.len := by
+  simp only [Option.bind_eq_some_iff] at hvs
+  obtain ⟨raw, hraw, hconv⟩ := hvs
+  refine ⟨mapM_conv_canon hconv, ?_⟩
+  have h1 := mapM_length _ _ _ hconv
+  have hs := size_pos_of_fixed t.ty
+  have hrawlen : data.length = t.ty.size * raw.length := by
+    cases hty : t.ty with
+    | bool =>
+      rw [hty] at hraw
+      simp only at hraw
+      have := decodeVals_length .usint rfl (by decide) data raw hraw
+      simpa [CipType.size, Generated.tt_BOOL_size, Generated.tt_USINT_size] using this
+    | sstring => rw [hty] at hf; simp [CipType.fixed, CipType.isString] at hf
+    | string => rw [hty] at hf; simp [CipType.fixed, CipType.isString] at hf
+    | _ =>
+      rw [hty] at hraw
+      simp only at hraw
+      exact decodeVals_length _ (by simp [CipType.fixed, CipType.isString]) (by decide) data raw hraw
+  rw [hlen] at hrawlen
+  have := Nat.eq_of_mul_eq_mul_left hs hrawlen
+  omega
+
+theorem execAttr_preserves_wf (d : Dev) (hwf : d.WF) (self : Nat × Nat) (s : Simple) :
+    (execAttr d self s).1.WF := by
+  unfold execAttr
+  simp only
+  split
+  · exact hwf
+  · split
+    · exact hwf
+    · split
+      · exact hwf
+      · rename_i c i _a hres hself _x o ho
+        cases s with
+        | getAttrAll p => simp only; split <;> (try split) <;> exact hwf
+        | getAttrSingle p =>
+          simp only
+          split
+          · split
+            · exact hwf
+            · split <;> exact hwf
+          · exact hwf
+        | setAttrSingle p data =>
+          simp only
+          split
+          · rename_i a _
+            split
+            · exact hwf
+            · rename_i t ht
+              split
+              · exact hwf
+              · rename_i hfix
+                split
+                · exact hwf
+                · rename_i hlen
+                  split
+                  · exact hwf
+                  · rename_i vs hvs
+                    split
+                    · exact hwf
+                    · have htag : d.attr? c i a = some t := by
+                        unfold Dev.attr?; rw [ho]; exact ht
+                      have htwf := hwf c i a t htag
+                      obtain ⟨hcanon, hl⟩ := setAttr_values t htwf data vs (by simpa using hfix)
+                        (by simpa using hlen) hvs
+                      intro c' i' a' t' ht'
+                      rw [Dev.attr?_setAttr] at ht'
+                      split at ht'
+                      · rw [htag] at ht'
+                        simp only [Option.map_some, Option.some.injEq] at ht'
+                        subst ht'
+                        by_cases hsc : t.scalar = true
+                        · have h1 : t.len = 1 := by simp [Tag.len, hsc]
+                          refine ⟨?_, ?_⟩
+                          · intro v hv; simp only [hsc, ↓reduceIte] at hv
+                            exact hcanon v (List.mem_of_mem_take hv)
+                          · intro _; simp only [hsc, ↓reduceIte, List.length_take]; omega
+                        · have hsc' : t.scalar = false := by simpa using hsc
+                          refine ⟨?_, ?_⟩
+                          · intro v hv; simp only [hsc', Bool.false_eq_true, ↓reduceIte] at hv
+                            exact hcanon v hv
+                          · intro h; simp [hsc'] at h
+                      · exact hwf c' i' a' t' ht'
+          · exact hwf
+        | _ => simp only; exact hwf
+
+theorem execAttr_reply_producible (d : Dev) (self : Nat × Nat) (s : Simple) :
+    ∃ bs, encodeReply (execAttr d self s).2 = some bs := by
+  have : (execAttr d self s).2.ty = none := by
+    unfold execAttr
+    simp only
+    repeat' split
+    all_goals rfl
+  unfold encodeReply
+  rw [this]
+  exact ⟨_, rfl⟩
+
+end Cpppo.Logix
